@@ -165,7 +165,8 @@ Qed.
 Definition values_keep (n : nat) : Prop :=
   (forall v, keeps (index_value n v)) /\ (forall x, keeps (index_inner n x)) /\
   (forall sv, keeps (index_simple n sv)) /\ (forall a, keeps (index_arg n a)) /\
-  (forall op an vs r, keeps (index_bang n op an vs r)).
+  (forall op an vs r, keeps (index_bang n op an vs r)) /\
+  (forall op a vs r, keeps (index_bang_ops n op a vs r)).
 
 Lemma keeps_sufs_loop : forall (l : list suffix) t,
     keeps ((fix sufs_loop (t : mty) (l : list suffix) : M mty :=
@@ -186,9 +187,15 @@ Lemma keeps_sufs_loop : forall (l : list suffix) t,
          end) t l).
 Proof. induction l as [|sf r IH]; intros t; ks; apply IH. Qed.
 
+Lemma keeps_index_annot : forall op an r, keeps (index_annot op an r).
+Proof. intros. unfold index_annot. ks. Qed.
+Lemma keeps_check_arity : forall op vs r, keeps (check_arity op vs r).
+Proof. intros. unfold check_arity. ks. Qed.
+#[export] Hint Resolve keeps_index_annot keeps_check_arity : keeps.
+
 Lemma values_keep_all : forall n, values_keep n.
 Proof.
-  induction n as [|n [IHv [IHi [IHs [IHa IHb]]]]].
+  induction n as [|n [IHv [IHi [IHs [IHa [IHb IHo]]]]]].
   - repeat split; intros; simpl; auto with keeps.
   - repeat split.
     + (* value *) intros [r [|first rest]]; simpl; ks.
@@ -197,8 +204,8 @@ Proof.
     + (* simple *) intros sv; destruct sv; simpl; ks;
         try (apply keeps_iterM; intros; apply IHv); try (apply keeps_mapM_opt; intros; first [apply IHv|apply IHa]).
     + (* arg *) intros a; destruct a; simpl; ks; apply IHv.
-    + (* bang *) intros op an vs r; simpl.
-      apply keeps_bind; [ks|]. intros a. apply keeps_seq; [ks|].
+    + (* bang *) intros op an vs r; simpl. ks.
+    + (* operands *) intros op a vs r; simpl.
       destruct op; simpl;
         try (ks; try (apply keeps_iterM; intros; ks; apply IHv); try (apply keeps_mapM_opt; intros; apply IHv); fail).
       * (* XFilter *)
